@@ -30,12 +30,13 @@ type Case struct {
 
 // Violation is a refuted call.
 type Violation struct {
-	Case   Case   `json:"case"`
-	Kind   string `json:"kind"` // discrepancy kind: value, sign, class, panic, error, text, ...
-	Want   string `json:"want"`
-	Got    string `json:"got"`
-	Detail string `json:"detail,omitempty"`
-	Known  string `json:"known,omitempty"` // id of the open known finding that matches, if any
+	Case   Case    `json:"case"`
+	Kind   string  `json:"kind"` // discrepancy kind: value, sign, class, panic, error, text, ...
+	Want   string  `json:"want"`
+	Got    string  `json:"got"`
+	Detail string  `json:"detail,omitempty"`
+	Metric float64 `json:"metric,omitempty"` // property-specific magnitude of the discrepancy (e.g. error in ulps)
+	Known  string  `json:"known,omitempty"`  // id of the open known finding that matches, if any
 }
 
 const maxViolationsPerShard = 400
@@ -49,7 +50,10 @@ type Shard struct {
 	nontrivial []uint64
 	Cells      map[string]int64
 	Viol       []Violation
-	ViolTotal  int64
+	ViolTotal  int64            // all violations, known or not
+	FreshTotal int64            // violations no open known finding matches
+	KnownCount map[string]int64 // matched violations per finding id
+	knownKept  map[string]int
 	Samples    []Case
 	Max        map[string]float64
 	MaxCase    map[string]Case
@@ -58,7 +62,8 @@ type Shard struct {
 }
 
 func NewShard(id int, phase string) *Shard {
-	return &Shard{ID: id, Phase: phase, Cells: map[string]int64{}, Max: map[string]float64{}, MaxCase: map[string]Case{}, Incon: map[string]int64{}}
+	return &Shard{ID: id, Phase: phase, Cells: map[string]int64{}, Max: map[string]float64{}, MaxCase: map[string]Case{}, Incon: map[string]int64{},
+		KnownCount: map[string]int64{}, knownKept: map[string]int{}}
 }
 
 // Next returns the running case index of this shard.
@@ -96,11 +101,35 @@ func (s *Shard) Sample(c *Case) {
 	}
 }
 
-func (s *Shard) Violate(c *Case, kind, want, got, detail string) {
+// Classifier, when set, names the open known finding a violation falls under
+// ("" if none). It is installed by the property framework and evaluated at
+// the moment a violation is recorded, so that classification never depends on
+// how many violations are kept.
+var Classifier func(v *Violation) string
+
+// ViolateM records a violation together with a numeric discrepancy measure.
+func (s *Shard) ViolateM(c *Case, kind, want, got, detail string, metric float64) {
+	v := Violation{Case: *c, Kind: kind, Want: want, Got: got, Detail: detail, Metric: metric}
 	s.ViolTotal++
-	if len(s.Viol) < maxViolationsPerShard {
-		s.Viol = append(s.Viol, Violation{Case: *c, Kind: kind, Want: want, Got: got, Detail: detail})
+	if Classifier != nil {
+		v.Known = Classifier(&v)
 	}
+	if v.Known != "" {
+		s.KnownCount[v.Known]++
+		if s.knownKept[v.Known] < 3 {
+			s.knownKept[v.Known]++
+			s.Viol = append(s.Viol, v)
+		}
+		return
+	}
+	s.FreshTotal++
+	if s.FreshTotal <= maxViolationsPerShard {
+		s.Viol = append(s.Viol, v)
+	}
+}
+
+func (s *Shard) Violate(c *Case, kind, want, got, detail string) {
+	s.ViolateM(c, kind, want, got, detail, 0)
 }
 
 // Result is the document a child process writes for the runner.
@@ -116,6 +145,8 @@ type Result struct {
 	Targets         []Target           `json:"targets,omitempty"`
 	Violations      []Violation        `json:"violations"`
 	ViolTotal       int64              `json:"violations_total"`
+	FreshTotal      int64              `json:"violations_fresh"`
+	KnownCounts     map[string]int64   `json:"known_counts,omitempty"`
 	Samples         []Case             `json:"samples"`
 	Max             map[string]float64 `json:"max,omitempty"`
 	MaxCase         map[string]Case    `json:"max_case,omitempty"`
@@ -169,7 +200,14 @@ func (c *Collector) Merge(s *Shard) {
 		}
 	}
 	c.Res.ViolTotal += s.ViolTotal
-	if len(c.Res.Violations) < 2000 {
+	c.Res.FreshTotal += s.FreshTotal
+	if c.Res.KnownCounts == nil {
+		c.Res.KnownCounts = map[string]int64{}
+	}
+	for k, v := range s.KnownCount {
+		c.Res.KnownCounts[k] += v
+	}
+	if len(c.Res.Violations) < 4000 {
 		c.Res.Violations = append(c.Res.Violations, s.Viol...)
 	}
 	if len(c.Res.Samples) < 12 {
